@@ -28,9 +28,9 @@ func tmName(n int) gen.Atom { return gen.Atom(fmt.Sprintf("name%d", n)) }
 
 // tmTarget: kind P,N,A,E,O,X
 type tmTarget struct {
-	kind     byte
-	node     int
-	id, cr   int // id doubles as the name index for N/E and as the value for X
+	kind   byte
+	node   int
+	id, cr int // id doubles as the name index for N/E and as the value for X
 }
 
 func (t tmTarget) tok() string {
